@@ -1000,6 +1000,14 @@ add_mul_float(Type& to, const Type x, const Type y, Rounding_Dir dir) {
     return assign_nan<To_Policy>(to, V_INF_MUL_ZERO);
   }
   // FIXME: missing check_inf_add_inf
+  // An infinite accumulator absorbs any finite product: the rounded
+  // product might be inexact or even an infinity of the opposite sign.
+  // Note: this does not depend on the policies declaring the infinities.
+  if (Float<Type>(to).u.binary.inf_sign() != 0
+      && x == x && Float<Type>(x).u.binary.inf_sign() == 0
+      && y == y && Float<Type>(y).u.binary.inf_sign() == 0) {
+    return V_EQ;
+  }
   prepare_inexact<To_Policy>(dir);
   if (fpu_direct_rounding(dir)) {
     to = multiply_add(x, y, to);
@@ -1035,6 +1043,14 @@ sub_mul_float(Type& to, const Type x, const Type y, Rounding_Dir dir) {
     return assign_nan<To_Policy>(to, V_INF_MUL_ZERO);
   }
   // FIXME: missing check_inf_add_inf
+  // An infinite accumulator absorbs any finite product: the rounded
+  // product might be inexact or even an infinity of the opposite sign.
+  // Note: this does not depend on the policies declaring the infinities.
+  if (Float<Type>(to).u.binary.inf_sign() != 0
+      && x == x && Float<Type>(x).u.binary.inf_sign() == 0
+      && y == y && Float<Type>(y).u.binary.inf_sign() == 0) {
+    return V_EQ;
+  }
   prepare_inexact<To_Policy>(dir);
   if (fpu_direct_rounding(dir)) {
     to = multiply_add(x, -y, to);
